@@ -327,24 +327,29 @@ class BaseCollection(BaseDisplayRepr):
             typechecks=True,
         )
 
-        # assign parent
-        for obj in obj_list:
+        # check all objects before modifying any of them
+        for i, obj in enumerate(obj_list):
             if isinstance(obj, Collection):
                 # no need to check recursively with `collections_all` if obj is already self
                 if obj is self or self in obj.collections_all:
                     raise MagpylibBadUserInput(
                         f"Cannot add {obj!r} because a Collection must not reference itself."
                     )
-            if obj._parent is None:
-                obj._parent = self
-            elif override_parent:
-                obj._parent.remove(obj)
-                obj._parent = self
-            else:
+            if any(obj is other for other in obj_list[:i]):
+                raise MagpylibBadUserInput(
+                    f"Cannot add {obj!r} to {self!r} more than once."
+                )
+            if obj._parent is not None and not override_parent:
                 raise MagpylibBadUserInput(
                     f"Cannot add {obj!r} to {self!r} because it already has a parent.\n"
                     "Consider using `override_parent=True`."
                 )
+
+        # assign parent
+        for obj in obj_list:
+            if obj._parent is not None:
+                obj._parent.remove(obj)
+            obj._parent = self
 
         # set attributes
         self._children += obj_list
